@@ -98,6 +98,9 @@ def run(ctx):
         mcases = vlib.read_ndjson(modelf)
         nmodel = len(mcases)
         cases = mcases + cases
+    step_info = None
+    if not ctx.replay:
+        step_info = vlib.step_traces(vh, "npm", "NpmStepTrace", "NpmStepTrace.cfg", wdir, tablesf, mcases if ctx.tier == "quick" else mcases[::8], "npm")
     casef = os.path.join(wdir, "cases.ndjson")
     obsf = os.path.join(wdir, "obs.ndjson")
     vlib.run_harness_split(vh, "npm", tablesf, cases, casef, obsf, nparts=1 if ctx.replay else 6)
@@ -159,7 +162,7 @@ def run(ctx):
     s = json.loads(lines[0])
     cov = {"states": states + nr_states, "transitions": gen + nr_gen, "traces_validated_against_impl": resolved, "evaluations": len(lines),
            "distinct_nontrivial": nontrivial,
-           "algorithm_model": {"family_universes": nmodel, "states": nr_states, "real_resolver_differs_on": len(model_diff)},
+           "algorithm_model": {"family_universes": nmodel, "states": nr_states, "real_resolver_differs_on": len(model_diff), "step_traces": step_info},
            "rule": "every universe of the NpmResolveMC family (TLC-enumerated, with the algorithm model's graph and tree) + seeded universes over the pools of NpmModel.tla; two roots per universe; non-trivial = resolved graph with >= 4 nodes; "
                    "%d resolutions produced a nested install (a package below depth 1), %d ended in a resolver error (not judged)" % (nested, errs),
            "samples": [{"root": s["root"], "universe_packages": len(s["universe"]), "graph": s["graph"], "tree": s["tree"][:6]}],
